@@ -40,11 +40,19 @@ F3 = r'^_ZN8fmtquill3v116formatIJPKcS3_S3_EEE=vh_format3'
 F2 = r'?^_ZN8fmtquill3v116formatIJPKcS3_EEE=vh_format2'
 def fmt(tier, timeout=280):
     return Q('format_throw', 'C10_exc.cpp', 'h_format', defines=['NCTX=1', 'NEVT=2', 'NSINK=2', 'TEBCAP=2'], exc=True, cuts=TE_CUTS, forbid=[x for x in C12F if 'cleanup' not in x] + [FMTF[0], r'^_ZN8fmtquill3v1119basic_memory_bufferIc.*4growE'], byteloops=True,
-             hooks=[DISPATCH, PF, FEL, CLN, VF, F3, F2], models=['m_transit.c', 'm_throw.c', 'm_env.c'], libmodels=['m_string.c', 'm_stl.c', 'm_eh.c'], cdefs=['VLL_STRBLOCK=160'],
+             hooks=[DISPATCH, PF, FEL, CLN, VF, F3, F2, '?' + SPL], models=['m_transit.c', 'm_throw.c', 'm_env.c'], libmodels=['m_string.c', 'm_stl.c', 'm_eh.c'], cdefs=['VLL_STRBLOCK=160'],
              unwind=24, unwindset=['strlen.0:140'], tier=tier, timeout=timeout,
              bounds='one statement whose rendering (libfmt vformat_to, a hook) succeeds / throws a std::exception-derived error / throws a non-std object; the error text (fmtquill::format) is a hook',
              what='real _populate_formatted_log_message: nothing escapes (so the record is always marked read), stale buffer content is replaced by the error text, the failure is reported exactly once; success leaves the rendering untouched and reports nothing')
-QUERIES = [ev(2, 'quick'), fmt('quick'), flushev(2, 'quick'), sinks(2, 2, 'quick'), flush(2, 'quick'), ev(3, 'thorough', 1700), sinks(1, 2, 'thorough', 1700), sinks(2, 1, 'thorough', 1700)]
+F1 = r'?^_ZN8fmtquill3v116formatIJRmEEE=vh_format1'
+SPL = r'^_ZN5quill2v96detail13BackendWorker27_format_and_split_argumentsE.*=vh_split'
+def fmtn(tier, timeout=280):
+    return Q('format_named_throw', 'C10_exc.cpp', 'h_format_named', defines=['NCTX=1', 'NEVT=2', 'NSINK=2', 'TEBCAP=2'], exc=True, cuts=TE_CUTS, forbid=[x for x in C12F if 'cleanup' not in x] + [FMTF[0], r'^_ZN8fmtquill3v1119basic_memory_bufferIc.*4growE'], byteloops=True,
+             hooks=[DISPATCH, PF, FEL, CLN, VF, F3, F2, SPL, F1], models=['m_transit.c', 'm_throw.c', 'm_env.c'], libmodels=['m_string.c', 'm_stl.c', 'm_eh.c'], cdefs=['VLL_STRBLOCK=160'],
+             unwind=24, unwindset=['strlen.0:140'], tier=tier, timeout=timeout,
+             bounds='one statement with named arguments whose per-argument rendering (_format_and_split_arguments, a hook) succeeds / throws a std::exception-derived error / throws a non-std object',
+             what='real _populate_formatted_named_args: nothing escapes whatever the rendering throws (so the record is always marked read)')
+QUERIES = [ev(2, 'quick'), fmt('quick'), fmtn('quick'), flushev(2, 'quick'), sinks(2, 2, 'quick'), flush(2, 'quick'), ev(3, 'thorough', 1700), sinks(1, 2, 'thorough', 1700), sinks(2, 1, 'thorough', 1700)]
 BOUNDS = 'quick: 2 events x 4 failure kinds, 2 events x 2 throwing sinks, 2 sinks throwing on flush, one Flush request, one unformattable statement; thorough: 3 events, other event/sink counts'
 OUTSIDE = 'the read/decode loop around _populate_formatted_log_message (K1: out of memory) and the poll loop with its outer catch-all; libfmt itself (which run-time format errors it raises); user codecs; exceptions thrown while another is being handled; catch-by-value copies'
 ASSUMPTIONS = ['C++ exceptions = pending-exception model of the translator (flag + object + typeinfo; invoke/landingpad/resume/__cxa_throw/__cxa_begin_catch; type matching over the typeinfo chain), validated per run against the real C++ runtime on 60 random native runs',
